@@ -49,6 +49,16 @@ class Oracle:
     def fail(self, clause, msg=""):
         raise Violation(self.prop, clause, msg)
 
+    def check_streams(self):
+        """every service-time / class-change-time sample was asked of the stream of the class the customer had at that moment"""
+        for key, calls in self.R.log.samples.items():
+            if key[0] not in ("srv", "cct"):
+                continue
+            for c in calls:
+                if len(c) > 6 and c[6] is not None and c[6] != key[2]:
+                    self.fail("sample-from-wrong-class-stream", "%s stream of node %s class %s was sampled at t=%r for ind %s, whose class was %s" % (
+                        key[0], key[1], key[2], c[1], c[2], c[6]))
+
     def start(self):            # after the Simulation object exists, before the first event
         pass
 
